@@ -21,9 +21,11 @@ package main
 // that a configuration is translated by exactly the translator it was written
 // and proved against: go2lean_effects.go (Effects; billcalcsrc.go),
 // go2lean_own.go (Own; taxtotalssrc.go), go2lean_env.go (G2LEnvRegister;
-// envelopesrc.go, correctsrc.go) — these three treat functions without result
-// and writes in place differently and exclude each other —, go2lean_codec.go
-// (Codec; codecsrc.go), go2lean_refs.go (G2LEnableRefs; refssrc.go).
+// envelopesrc.go, correctsrc.go), go2lean_buffer.go (byte mode: Basic["string"]
+// = GoblVerif.GoBytes.Str; c14nsrc.go) — these four treat functions without
+// result and writes in place differently and exclude each other —,
+// go2lean_codec.go (Codec; codecsrc.go), go2lean_refs.go (G2LEnableRefs;
+// refssrc.go).
 //
 // HOW TO USE IT FOR ANOTHER PACKAGE (numsrc.go is the worked example,
 // testdata/g2l + go2lean_test.go the fixture for everything num does not need):
@@ -131,9 +133,9 @@ type G2LConfig struct {
 	// {1} … the arguments): the statement `x.M(a)` becomes `x := template` (go2lean_effects.go)
 	EffPrims map[string]string
 	// The two extensions below both deal with functions without result, writes in place and range loops, in
-	// different ways (so does go2lean_env.go, switched on by G2LEnvRegister); each is OFF unless the configuration
-	// asks for it, and a configuration asks for at most one of the three (G2LRun refuses more).  With none, a
-	// function without result is untranslated.
+	// different ways (so do go2lean_env.go, switched on by G2LEnvRegister, and the byte mode of go2lean_buffer.go);
+	// each is OFF unless the configuration asks for it, and a configuration asks for at most one of the four
+	// (G2LRun refuses more).  With none, a function without result is untranslated.
 	Effects bool // go2lean_effects.go: context parameters, effect loops, a function without result returns its in-out parameters alone (billcalcsrc.go)
 	Own     bool // go2lean_own.go: owned locals, cursors, a function without result returns Unit × its in-out parameters (taxtotalssrc.go)
 
@@ -444,6 +446,9 @@ func (g *g2l) leanType(t types.Type) (string, error) {
 
 // zero value of a type, as Lean text
 func (g *g2l) zero(t types.Type) (string, error) {
+	if z, ok := g.zeroBuf(t); ok { // go2lean_buffer.go: bytes.Buffer
+		return z, nil
+	}
 	lt, err := g.leanType(t)
 	if err != nil {
 		return "", err
@@ -660,8 +665,8 @@ func g2lCount(bs ...bool) (n int) {
 // G2LRun translates what cfg asks for and returns the text of the Lean module.
 func G2LRun(cfg *G2LConfig) (string, error) {
 	g := &g2l{cfg: cfg, units: map[string]*g2lUnit{}}
-	if n := g2lCount(cfg.Effects, cfg.Own, g.envOn()); n > 1 {
-		return "", fmt.Errorf("configuration %s: Effects, Own and G2LEnvRegister exclude each other", cfg.Namespace)
+	if n := g2lCount(cfg.Effects, cfg.Own, g.envOn(), g.bytesOn()); n > 1 {
+		return "", fmt.Errorf("configuration %s: Effects, Own, G2LEnvRegister and the byte mode exclude each other", cfg.Namespace)
 	}
 	if !cfg.Effects && (len(cfg.Context) > 0 || len(cfg.EffPrims) > 0) {
 		return "", fmt.Errorf("configuration %s: Context / EffPrims need Effects", cfg.Namespace)
